@@ -2,13 +2,14 @@
    Only statements closed by `exact`, each followed by Print Assumptions, plus non-vacuity Examples.
    Models: model/TextRead.v.  Spec: spec/SpecTextRead.v (abstract content, display, serialisers, library layers).
    html.parser tokenisation and BeautifulSoup tree building are correspondence-only.
-   NO theorem here mentions spec display / serialise / ok_lines_a: the statement itself ("what the reader returns is what a
-   consumer displays") is checked by the oracle on the real readers; the theorems are component facts about the reader models. *)
+   END-TO-END theorems (wave 5, at the end of this file): for SRT, MicroDVD and WebVTT the statement itself - the harness
+   oracle ok_lines_a between spec display and the reader MODEL applied to the spec serialisation - is proved on a stated
+   domain; DFXP / SAMI stay at component level (tree walk, text-node matcher, SAMI stage 1) + oracle on the real readers. *)
 From Coq Require Import List ZArith Bool.
 From PV Require Import lib.Sx lib.Str lib.Result model.TextNodes model.TextRead.
 From PV Require Import spec.SpecTextXml spec.SpecTextLines spec.SpecTextRead.
 From PV Require Import proofs.TextXmlFacts proofs.TextReadVttFacts proofs.TextReadVttTagFacts proofs.TextReadFacts.
-From PV Require Import proofs.TextReadVttDocFacts model.GenText.
+From PV Require Import proofs.TextReadVttDocFacts model.GenText proofs.TextReadEndFacts proofs.TextReadEndVttFacts proofs.TextReadEndXmlFacts.
 Import ListNotations.
 Open Scope Z_scope.
 
@@ -164,3 +165,71 @@ Proof. vm_compute. reflexivity. Qed.
 Example C04_other_pattern_pinned :
   GenText.vtt_other_pattern = lit "</?([cibuv]|ruby|rt|lang|(\d+):(\d{2})(:\d{2})?\.(\d{3}))([ \t.][^>]*)?>".
 Proof. vm_compute. reflexivity. Qed.
+
+(* ==== END TO END on the models: the property statement, with the harness oracle as conclusion ============================== *)
+(* SRT: every item list without a line feed inside text and without the WebVTT-only items (voice, unknown tag) *)
+Theorem C04_srt_end_to_end : forall items, forallb (plain_ok 10) items = true ->
+  ok_lines_a (SpecTextRead.display items) (node_lines (read_srt items)) = true.
+Proof. exact srt_end_to_end. Qed.
+Print Assumptions C04_srt_end_to_end.
+
+(* MicroDVD: the same with '|' as the character text cannot contain *)
+Theorem C04_mdvd_end_to_end : forall items, forallb (plain_ok 124) items = true ->
+  ok_lines_a (SpecTextRead.display items) (node_lines (read_mdvd items)) = true.
+Proof. exact mdvd_end_to_end. Qed.
+Print Assumptions C04_mdvd_end_to_end.
+
+(* WebVTT.  FULL statement (not proved):
+     forall items, <items well formed> -> ok_lines_a (display items) (node_lines (read_vtt true items)) = true
+   PROVED PART (vtt_item_ok, lines_trimmed):
+     - characters in the spellings raw / WebVTT-named (&amp; &lt; &gt; &nbsp; &lrm; &rlm;), no line feed inside text; the numeric
+       and HTML named spellings are excluded because the reader leaves them literal (known finding
+       C04-vtt-character-reference-left-literal), '&' and '<' are always escaped by the serialiser;
+     - every known tag i b u c ruby rt lang v, open and close, in all six start-tag shapes (0 <= k < 60, k mod 10 <= 7);
+     - voice tags with classes and any name without a raw '>';  unknown tags (names of letters, digits, _ and -) stay literal;
+     - comments / PIs (serialise to nothing); NOT timestamp tags (IStamp: the segment theorem has no timestamp segment);
+     - hypothesis lines_trimmed: no source line of the cue begins or ends with white space (the reader strips each line
+       before decoding; commuting strip with the three substitutions is not proved).
+   Conclusion even exact: the reader model's lines ARE the displayed lines. *)
+Theorem C04_vtt_end_to_end_partial : forall items, forallb vtt_item_ok items = true -> lines_trimmed items = true ->
+  ok_lines_a (SpecTextRead.display items) (node_lines (read_vtt true items)) = true.
+Proof. exact vtt_end_to_end. Qed.
+Print Assumptions C04_vtt_end_to_end_partial.
+
+Theorem C04_vtt_end_to_end_exact_partial : forall items, forallb vtt_item_ok items = true -> lines_trimmed items = true ->
+  node_lines (read_vtt true items) = SpecTextRead.display items.
+Proof. exact vtt_end_to_end_exact. Qed.
+Print Assumptions C04_vtt_end_to_end_exact_partial.
+
+(* one source line through strip-free decoding: voice substitution, tag substitution and the replace chain composed *)
+Theorem C04_vtt_line_decode : forall l, forallb ltok_ok l = true ->
+  vtt_entities (other_sub true (voice_sub (lrender_all l))) = TextReadVttFacts.render (map decode_piece (flat_map lpieces l)).
+Proof. exact line_decode. Qed.
+Print Assumptions C04_vtt_line_decode.
+
+Example C04_example_vtt_domain : forallb vtt_item_ok vtt_example = true /\ lines_trimmed vtt_example = true.
+Proof. exact vtt_example_ok. Qed.
+Example C04_example_vtt_shows :
+  serialise F_VTT vtt_example = lit "<v.loud Bob>R&amp;D &lt;<c.a.b-c some words>x</c>" ++ [10] ++ lit "<bar>&amp;lt;</bar>" /\
+  node_lines (read_vtt true vtt_example) = [lit "Bob: R&D <x"; lit "<bar>&lt;</bar>"].
+Proof. exact vtt_example_shows. Qed.
+Example C04_example_plain_domain :
+  forallb (plain_ok 10) [ITxt [(97, 0); (38, 1)]; IOpen 0; IWrap 3; IEnt (lit "eacute") 233; IClose 0; IBr; ITxt [(60, 2)]] = true.
+Proof. exact plain_ok_example. Qed.
+
+(* DFXP at tree level.  FULL statement (not proved): ok_lines_a (display items) (node_lines ns) for read_dfxp true items = Some ns.
+   PROVED PART, for ALL item lists: with the tree-building library as the stated boundary (read_dfxp starts from the spec tree
+   tree_of, which the harness compares with BeautifulSoup's), the nodes the reader model returns show every non-white-space
+   character of the cue and every line break, in order (item_flat = displayed text with a mark per break; vis filters white
+   space).  Entities, comments, PIs, spans, source wraps: all covered.  Blind to white space, hence to the known finding
+   "words glued at a wrap next to an inline element". *)
+Theorem C04_dfxp_tree_visible_partial : forall items ns, read_dfxp true items = Some ns ->
+  vis (node_flat ns) = vis (item_flat items).
+Proof. exact dfxp_tree_visible. Qed.
+Print Assumptions C04_dfxp_tree_visible_partial.
+
+Example C04_example_dfxp_tree :
+  read_dfxp true [ITxt [(97, 0); (38, 1)]; IWrap 3; IOpen 0; ITxt [(98, 2)]; IClose 0; IBr; ICom (lit " c "); IEnt (lit "x") 99]
+  = Some [NText (lit "a&"); NStyle true (mkStyle true false false None); NText (lit "b"); NStyle false (mkStyle true false false None);
+          NBreak; NText (lit "c")].
+Proof. exact dfxp_tree_example. Qed.
